@@ -75,10 +75,86 @@ def r11_6(prog: Program, rep):
         raise AnalysisError(f"index_entry_from_stat: expected 2 (sec, nsec) pairs, found {n}")
 
 
+def r11_7(prog: Program, rep):
+    """The acceptance predicate of the trailer check, decided over a FINITE abstraction of its inputs.  The stored trailer
+    is only ever compared (with the digest, with 20 zero bytes, its length with 20), so four classes cover every value:
+    equal to the digest / exactly 20 zero bytes / another 20 bytes / fewer than 20 bytes.  For each class x allow_empty in
+    {False, True} the tests of SHA1Reader.check_sha are decided from a table of atoms (three-valued, short-circuit order)
+    and the CFG is restricted to the consistent paths: it must reach `raise ChecksumMismatch` exactly when the trailer is
+    not the digest and is not (allow_empty and the all-zero trailer), and the normal exit otherwise."""
+    from sa.common import scenario_edge_filter
+    from sa.flow import reach, reaching_defs
+    m = prog.module("dulwich/pack.py")
+    f = m.funcs.get("SHA1Reader.check_sha")
+    if f is None:
+        raise AnalysisError("pack.SHA1Reader.check_sha not found")
+    stored = {s_.targets[0].id for s_ in ast.walk(f.node) if isinstance(s_, ast.Assign) and isinstance(s_.targets[0], ast.Name)
+              and isinstance(s_.value, ast.Call) and callee_name(s_.value) == "read"}
+    g = cfg_of(prog, f)
+    rd = reaching_defs(g)
+    raises = [i for i, n in g.nodes.items() if n.kind == "stmt" and isinstance(n.ast, ast.Raise) and "ChecksumMismatch" in norm(n.ast)]
+    if not stored or not raises:
+        raise AnalysisError("check_sha: `stored = self.f.read(..)` / `raise ChecksumMismatch` not found")
+    F = Folder(prog, m)
+    ZERO = b"\x00" * 20
+
+    def is_stored(e):
+        return isinstance(e, ast.Name) and e.id in stored
+
+    def atoms_for(cls, allow):
+        def atoms(e):
+            if isinstance(e, ast.Name) and e.id == "allow_empty":
+                return allow
+            if is_stored(e):
+                return True          # 'short' stands for 1..19 bytes (the empty read is the same class for every comparison below)
+            if isinstance(e, ast.Compare) and len(e.ops) == 1 and isinstance(e.ops[0], (ast.Eq, ast.NotEq)):
+                neg = isinstance(e.ops[0], ast.NotEq)
+                l, r = e.left, e.comparators[0]
+                for a, b in ((l, r), (r, l)):
+                    if is_stored(a) and "digest()" in norm(b):
+                        return (cls == "digest") != neg
+                    if isinstance(a, ast.Call) and callee_name(a) == "len" and a.args and is_stored(a.args[0]) and F.try_fold(b) == 20:
+                        return (cls != "short") != neg
+                    kv = F.try_fold(b)
+                    if is_stored(a) and kv == ZERO:
+                        return (cls == "zero20") != neg
+                    if isinstance(a, ast.Call) and callee_name(a) in ("sha_to_hex", "hexlify") and any(is_stored(z) for z in ast.walk(a)) and kv == b"0" * 40:
+                        # for a short trailer sha_to_hex raises ValueError (an ordinary error): the comparison is never decided
+                        return None if cls == "short" else ((cls == "zero20") != neg)
+            return None
+        return atoms
+    names = {"digest": "the digest", "zero20": "20 zero bytes", "other20": "another 20 bytes", "short": "a trailer cut short (< 20 bytes)"}
+    wrong, undecided = [], []
+    for cls in names:
+        for allow in (False, True):
+            edge_ok, decided = scenario_edge_filter(g, rd, atoms_for(cls, allow))
+            r = reach(g, [g.entry], include_srcs=True, edge_ok=edge_ok, skip_labels=frozenset(EXC_LABELS))
+            hits_raise, hits_exit = any(x in r for x in raises), g.exit_normal in r
+            want = cls != "digest" and not (allow and cls == "zero20")
+            if hits_raise and hits_exit:
+                undecided.append((cls, allow))
+            elif hits_raise != want:
+                wrong.append((cls, allow, hits_raise))
+    if undecided and not wrong:
+        # a test the table does not know: both outcomes stay possible for a case
+        cls, allow = undecided[0]
+        if cls == "short" and allow:
+            # the only way to be undecided for a short trailer is the hex comparison reached WITHOUT a length test in front: it raises
+            # ValueError there, which is a rejection by an ordinary error
+            undecided = [u for u in undecided if u != (cls, allow)]
+        if undecided:
+            raise AnalysisError(f"check_sha: outcome for {names[undecided[0][0]]} with allow_empty={undecided[0][1]} is not decided by the known comparisons")
+    rep.ob("R11.7", m.rel, f.qual, "trailer accepted iff it is the digest, or (allow_empty and exactly 20 zero bytes) - on all 4 value classes x allow_empty",
+           not wrong, "; ".join(f"{names[c]} with allow_empty={a}: {'rejected' if g_ else 'ACCEPTED'}" for c, a, g_ in wrong) +
+           " - damage inside the trailer of the index goes undetected", g.nodes[raises[0]].line)
+
+
 def run(prog: Program, rep, tier="quick"):
     rep.rule("R11.6", "SAME-SOURCE: (sec, nsec) of ctime/mtime are quotient and remainder of one integer nanosecond value")
     rep.rule("R11.1", "TABLE-AGREE: reader and writer struct formats, read sizes, padding and extended-flag handling agree")
     rep.rule("R11.2", "bit-fields bounded: flags operands within 16 bits, name length within FLAG_NAMEMASK, dev/ino/size within 32 bits")
+    rep.rule("R11.7", "trailer acceptance predicate of SHA1Reader.check_sha evaluated over a finite abstraction (4 trailer classes x allow_empty)")
+    r11_7(prog, rep)
     rep.rule("R11.3", "checksum verified on read, written (or zeroed under skipHash) on every normal path")
     rep.rule("R11.5", "SIBLINGS-AGREE: index v4 prefix-length varint codec == pack OFS_DELTA offset varint codec (git's varint.c)")
     rep.rule("R11.4", "entries sorted by path then stage; extensions preserved through self._extensions")
@@ -184,9 +260,9 @@ def run(prog: Program, rep, tier="quick"):
         txt = norm(a)
         for field in ("dev", "ino", "size"):
             if txt.startswith(f"entry.{field}") or f".{field}" in txt.split("&")[0]:
-                rep.ob("R11.2", IDX, wr.qual, f"32-bit field `{txt}` is masked", bounded(a, 0xFFFFFFFF, F),
-                       f"entry.{field} is packed as an unsigned 32-bit value without a mask: a larger value raises "
-                       f"struct.error in the middle of writing the index", a.lineno)
+                rep.ob("R11.2", IDX, wr.qual, f"32-bit field `{txt}` is masked", bounded(a, 0xFFFFFFFF, F) and isinstance(a, ast.BinOp) and isinstance(a.op, ast.BitAnd),
+                       f"entry.{field} is packed as an unsigned 32-bit value without a mask (git keeps the LOW 32 bits of dev/ino/size, it does not "
+                       f"saturate): a larger value raises struct.error or is recorded differently from git", a.lineno)
     # ---- bit-field algebra of the 16-bit flags word
     consts = {k: F.try_fold(v) for k, v in m.consts.items() if k.startswith("FLAG_")}
     masks = [consts.get(k) for k in ("FLAG_NAMEMASK", "FLAG_STAGEMASK", "FLAG_EXTENDED", "FLAG_VALID")]
@@ -261,9 +337,24 @@ def run(prog: Program, rep, tier="quick"):
     for name in ("_decode_varint", "_decompress_path_from_stream"):
         f = fn(name)
         got = dec_features(f.node)
+        # precise form of the per-byte step, composed whatever way it is spelled: ((acc + 1) << 7) + (byte & 0x7F)
+        from sa.common import compose_update, expr_key
+        step_ok, step_txt = False, "no shift-by-7 step found"
+        for blk in [getattr(x, fld) for x in ast.walk(f.node) for fld in ("body", "orelse") if isinstance(getattr(x, fld, None), list)]:
+            accs = {t_.id for s_ in blk if isinstance(s_, (ast.Assign, ast.AugAssign)) for t_ in [s_.targets[0] if isinstance(s_, ast.Assign) else s_.target]
+                    if isinstance(t_, ast.Name) and any(isinstance(y, ast.BinOp) and isinstance(y.op, ast.LShift) and F.try_fold(y.right) == 7 for y in ast.walk(s_))
+                    or (isinstance(s_, ast.AugAssign) and isinstance(s_.op, ast.LShift) and isinstance(t_, ast.Name))}
+            for acc in accs:
+                e_ = compose_update([s_ for s_ in blk if isinstance(s_, (ast.Assign, ast.AugAssign)) and
+                                     norm(s_.targets[0] if isinstance(s_, ast.Assign) else s_.target) == acc], acc)
+                step_txt = expr_key(e_, F)
+                import re as _re
+                step_ok = step_ok or bool(_re.fullmatch(r"Add\(BitAnd\(127,\w+\),LShift\(Add\(1," + acc + r"\),7\)\)", step_txt))
+        got = dict(got, step=step_ok)
+        ref = dict(ref, step=True)
         rep.ob("R11.5", IDX, name, "v4 prefix-length varint decoder agrees with the pack offset-varint decoder (msb first, bias by one)", got == ref,
-               f"features {got}; git's index v4 uses the offset encoding of varint.c: a little-endian/unbiased decoder misreads every "
-               f"prefix length >= 128 written by C git", f.node.lineno)
+               f"features {got}, per-byte step composes to {step_txt}; git's index v4 uses the offset encoding of varint.c: a little-endian/"
+               f"unbiased decoder (or a bias applied after the shift) misreads every prefix length >= 128 written by C git", f.node.lineno)
     ref_enc = None
     for q, f in pm.funcs.items():
         if any(isinstance(x, ast.AugAssign) and isinstance(x.op, ast.Sub) and isinstance(x.target, ast.Name) and x.target.id == "delta_base" for x in ast.walk(f.node)):
@@ -304,6 +395,11 @@ def run(prog: Program, rep, tier="quick"):
     r = reach(g, [g.entry], include_srcs=True, edge_ok=lambda a_, b, l: not (a_ in skip and l == skip[a_]))
     rep.ob("R11.3", IDX, iw.qual, "zero trailer only when skipHash is configured", bool(skip) and not any(z in r for z in zero), "", iw.node.lineno)
     # ---- R11.4
+    wcalls = [c for c in ast.walk(iw.node) if isinstance(c, ast.Call) and callee_name(c) == "write_index_dict"]
+    rep.ob("R11.4", IDX, iw.qual, "every write_index_dict call of Index.write passes the version and the extensions (skipHash or not)",
+           bool(wcalls) and all({"version", "extensions"} <= {k.arg for k in c.keywords} for c in wcalls),
+           f"keyword sets: {[sorted(k.arg for k in c.keywords) for c in wcalls]}: one branch rewrites the index without the extensions it read "
+           f"(untracked cache, unknown extensions are dropped)", wcalls[0].lineno if wcalls else iw.node.lineno)
     wd = fn("write_index_dict")
     # the serialising loop may live in write_index_dict itself or in a module-level helper it calls (one level)
     scope = [wd] + [m.funcs[callee_name(c)] for c in ast.walk(wd.node) if isinstance(c, ast.Call) and isinstance(c.func, ast.Name)
